@@ -100,6 +100,13 @@ class AB:
         self.files[name] = content
         self.exp["untouched"].append(name)
 
+    def local_link(self, name, target):
+        """a symbolic link whose target does not exist: std::filesystem::exists follows it and says 'no', yet the name is
+        taken - opening it for writing would create the target, removing it would remove the link"""
+        self.links = getattr(self, "links", {})
+        self.links[name] = target
+        self.exp["untouched"].append(name)
+
     def local_dir(self, name, inner):
         """an existing local directory with files in it: for std::filesystem::exists it is there like a file"""
         self.dirs = getattr(self, "dirs", {})
@@ -261,7 +268,7 @@ class AB:
         if not self.connected:
             return name
         creatable = 0 < len(name) <= 255 and b"/" not in name and name not in (b".", b"..") and name not in self.files \
-            and name not in getattr(self, "dirs", {}) \
+            and name not in getattr(self, "dirs", {}) and name not in getattr(self, "links", {}) \
             and name not in self.exp["present"] and name not in self.maybe
         # (a refused or failed-completion download removes the file again: the name stays free)
         if creatable:
@@ -301,7 +308,7 @@ class AB:
     def scenario(self, family):
         return dict(family=family, sessions=self.b.sessions, files=dict(self.files), lines=list(self.lines),
                     exp=self.exp, exact=self.exact, bexp=self.b.exp, ended_by_exit=self.ended,
-                    dirs=dict(getattr(self, "dirs", {})))
+                    dirs=dict(getattr(self, "dirs", {})), links=dict(getattr(self, "links", {})))
 
 
 # ---------------------------------------------------------------------------------------------- families
@@ -497,17 +504,25 @@ def fam_files(rng, n, dist):
         a.local_file(pct, b"percent")
         a.local_file(b"other.bin", S_payload(rng))
         a.local_dir(b"downloads", {b"report.txt": b"local report\n", b"r.bin": b"local r\n"})
+        a.local_link(b"latest.bin", b"no-such-target.bin")
         a.open((220,))
         for _ in range(rng.choice([2, 4, 7])):
             if not a.connected:
                 break
             k = rng.choice(["existing", "existing-derived", "overlong", "overlong-derived", "nodir", "empty-name", "refused-setup",
                             "refused-cmd", "complete", "complete-derived", "len255", "again", "percent-uncreatable",
-                            "existing-dir", "existing-dir"])
+                            "existing-dir", "existing-dir", "dangling-link", "dangling-link"])
             dist.add("get-case:" + k)
             i = len(a.lines)
             if k == "existing":
                 a.get(b"/pub/whatever", rng.choice([b"precious.txt", pct]))
+            elif k == "dangling-link":
+                # the name is a symbolic link to nowhere: it is there (the link must survive, nothing may be created
+                # through it) whatever the server would answer
+                if rng.random() < 0.5:
+                    a.get(b"/pub/whatever", b"latest.bin")
+                else:
+                    a.get(b"/pub/latest.bin")
             elif k == "existing-dir":
                 # the local name is an existing directory that holds a file named like the remote one: it "already
                 # exists"; nothing in it may be written, truncated or removed - whether the server would serve or refuse
@@ -572,6 +587,8 @@ def run_real(scn, exe, workdir):
     for n, c in scn["files"].items():
         with open(os.path.join(wd, n), "wb") as f:
             f.write(c)
+    for ln, target in scn.get("links", {}).items():
+        os.symlink(target, os.path.join(wd, ln))
     for dn, inner in scn.get("dirs", {}).items():
         os.makedirs(os.path.join(wd, dn))
         for n, c in inner.items():
@@ -592,7 +609,9 @@ def run_real(scn, exe, workdir):
     files = {}
     for n in os.listdir(wd):
         pth = os.path.join(wd, n)
-        if os.path.isfile(pth):
+        if os.path.islink(pth):
+            files[n] = b"\x00link:" + os.readlink(pth)
+        elif os.path.isfile(pth):
             with open(pth, "rb") as f:
                 files[n] = f.read()
         else:
@@ -614,12 +633,13 @@ def model_line(scn, lines):
         out.append(str(len(s["reactions"])))
         for ri, r in enumerate(s["reactions"]):
             out += P.ser_reaction(r, P.MODEL_PORT + ri)
-    dirs = scn.get("dirs", {})
-    out.append(str(len(scn["files"]) + len(dirs)))
+    # the model's file system is flat: a directory and a dangling symbolic link are names that are taken
+    dirs, links = scn.get("dirs", {}), scn.get("links", {})
+    out.append(str(len(scn["files"]) + len(dirs) + len(links)))
     for n in sorted(scn["files"]):
         out += [H(n), H(scn["files"][n])]
-    for n in sorted(dirs):
-        out += [H(n), H(b"")]          # a directory: a name that exists (the model's file system is flat)
+    for n in sorted(dirs) + sorted(links):
+        out += [H(n), H(b"")]
     out.append(str(len(lines)))
     out += [H(l) for l in lines]
     return " ".join(out)
@@ -739,6 +759,9 @@ def correspondence(scn, res):
     rf = {n: c for n, c in res["files"].items()}
     # the model's file system is flat: a scripted directory is a name that exists; the files inside it are outside the
     # model (the oracle checks that they are untouched) - anything ELSE that appears inside stays in the comparison
+    for ln, target in scn.get("links", {}).items():
+        if rf.get(ln) == b"\x00link:" + target:
+            rf[ln] = b""
     for dn, inner in scn.get("dirs", {}).items():
         if dn in rf and rf[dn] is None:
             rf[dn] = b""
@@ -810,6 +833,8 @@ def oracles(scn, res):
             v.append(("app/offline-network-activity", "the peer saw connections %r although no open was given" % conns))
     # get never overwrites or deletes a local file that already existed
     orig = dict(scn["files"])
+    for ln, target in scn.get("links", {}).items():
+        orig[ln] = b"\x00link:" + target
     for dn, inner in scn.get("dirs", {}).items():
         for f, c in inner.items():
             orig[dn + b"/" + f] = c
